@@ -217,6 +217,7 @@ static Plan gen_c09(uint64_t seed, int64_t index, bool thorough)
     std::string key = rng.pick(pk);
     const ref::Model* m = model_for(grammar_of(key));
     OpShape sh;
+    sh.allow_heap = true;     // run-time constructed instances (built by a factory whose term objects are gone)
     sh.budget = thorough ? 48 : 24;
     sh.ws_rich = rng.chance(1, 3);
     sh.buffers = { BUF_SIM, BUF_SIM, BUF_SIM, BUF_STRING, BUF_VIEW };
@@ -352,6 +353,7 @@ static Plan gen_c10(uint64_t seed, int64_t index, bool thorough)
     std::string key = rng.pick(pk);
     const ref::Model* m = model_for(grammar_of(key));
     OpShape sh;
+    sh.allow_heap = true;     // run-time constructed instances (built by a factory whose term objects are gone)
     sh.budget = thorough ? 48 : 24;
     sh.ws_rich = !rng.chance(1, 4);
     sh.p_skip_nl_off = 30;
@@ -483,6 +485,7 @@ static Plan gen_c08(uint64_t seed, int64_t index, bool thorough)
     std::string key = rng.pick(pk);
     const ref::Model* m = model_for(grammar_of(key));
     OpShape sh;
+    sh.allow_heap = true;     // run-time constructed instances (built by a factory whose term objects are gone)
     sh.budget = thorough ? 40 : 20;
     sh.p_skip_ws_off = 3; sh.p_skip_nl_off = 5;
     sh.buffers = { BUF_SIM, BUF_STRING, BUF_VIEW, BUF_CSTRING };
@@ -640,6 +643,7 @@ static Plan gen_c18(uint64_t seed, int64_t index, bool thorough)
     std::string key = rng.pick(pk);
     const ref::Model* m = model_for("G6");
     OpShape sh;
+    sh.allow_heap = true;     // run-time constructed instances (built by a factory whose term objects are gone)
     sh.budget = thorough ? 40 : 20;
     sh.ws_rich = rng.chance(1, 2);
     sh.p_skip_ws_off = 15; sh.p_skip_nl_off = 20;
